@@ -476,7 +476,7 @@ func rawRandom(p rawProto, rng *rand.Rand) rawCfg {
 }
 
 // scripted scenarios per engine
-func rawScripted(p rawProto) []rawCfg {
+func rawScripted0(p rawProto) []rawCfg {
 	sec := time.Second
 	b := rawCfg{P: p, TTL: 8, SQ: 2, RQ: 2}
 	mk := func(mod func(*rawCfg), steps ...string) rawCfg { c := b; mod(&c); c.Steps = steps; return c }
@@ -518,6 +518,16 @@ func rawScripted(p rawProto) []rawCfg {
 
 // deadline grid (C18): a blocked call returns at exactly its deadline, never before; a call that can
 // complete at once is not failed by it; best effort never blocks; fail-no-peers fails at once
+func rawScripted(p rawProto) []rawCfg {
+	out := rawScripted0(p)
+	// a Recv that is parked while the receive queue is replaced by a longer, a shorter and an equally long one goes on
+	// waiting on the new queue: the next message from the peer is delivered to it (patterns without Recv or without the
+	// option leave the steps without effect)
+	out = append(out, rawCfg{P: p, TTL: 8, SQ: 2, RQ: 2, Steps: []string{"conn", "recv", "rq 5", "inj p1 ok", "recv", "rq 1", "inj p1 ok",
+		"recv", "rq 1", "inj p1 ok", "recv", "recv", "rq 3", "inj p1 ok", "inj p1 ok"}})
+	return out
+}
+
 func rawDeadline(p rawProto) []rawCfg {
 	var out []rawCfg
 	us := time.Microsecond
